@@ -934,7 +934,36 @@ class Engine:
                 return V(recv.ty, r)
         raise OutOfSubset(f'.union on {recv.ty}')
 
+    def sorted_items(self, d, ctx):
+        """sorted(d.items(), key=lambda x: x[0]) for a dictionary with numeric keys: the (key, value) pairs in strictly increasing key
+        order, each key of the dictionary exactly once (LC-SORTED)"""
+        dt = d.ty
+        tt = TTuple([dt.k, dt.v])
+        lt = TList(tt)
+        nm = dt.name.replace('[', '_').replace(']', '').replace(',', '_')
+        r = z3.Function('sorted_items_' + nm, dt.sort(), lt.sort())(d.t)
+        idx = z3.Function('sorted_items_idx_' + nm, dt.sort(), dt.k.sort(), z3.IntSort())
+        arr, n = lt.arr(r), lt.n(r)
+        j, k = fresh('j', z3.IntSort()), fresh('k', z3.IntSort())
+        x = fresh('x', dt.k.sort())
+        key = lambda t: tt.acc(0, t)
+        val = lambda t: tt.acc(1, t)
+        ctx.assume(n >= 0)
+        ctx.assume(z3.ForAll([k], z3.Implies(z3.And(0 <= k, k < n), z3.And(z3.Select(dt.has(d.t), key(z3.Select(arr, k))),
+                                                                            val(z3.Select(arr, k)) == z3.Select(dt.at(d.t), key(z3.Select(arr, k)))))))
+        ctx.assume(z3.ForAll([x], z3.Implies(z3.Select(dt.has(d.t), x), z3.And(0 <= idx(d.t, x), idx(d.t, x) < n, key(z3.Select(arr, idx(d.t, x))) == x))))
+        ctx.assume(z3.ForAll([j, k], z3.Implies(z3.And(0 <= j, j < k, k < n), key(z3.Select(arr, j)) < key(z3.Select(arr, k)))))
+        self.libs_used.add('LC-SORTED: sorted(d.items(), key=first component) lists every key of d once with its value, in strictly increasing key order')
+        return V(lt, r)
+
     def bi_sorted(self, n, ctx, ev):
+        a0 = n.args[0]
+        if isinstance(a0, ast.Call) and isinstance(a0.func, ast.Attribute) and a0.func.attr == 'items' and not a0.args and len(n.keywords) == 1 \
+                and n.keywords[0].arg == 'key' and isinstance(n.keywords[0].value, ast.Lambda) \
+                and ast.unparse(n.keywords[0].value.body) == n.keywords[0].value.args.args[0].arg + '[0]':
+            d_ = ev.unwrap_opt(ev.ev(a0.func.value, ctx), ctx)
+            if isinstance(d_.ty, TDict) and d_.ty.k in (INT, REAL):
+                return self.sorted_items(d_, ctx)
         v = ev.ev(n.args[0], ctx)
         if n.keywords:
             # only key=lambda x: (x[0], x[1], .., x[m-1]) on a set of m-tuples of ints: the identity key, i.e. plain lexicographic order
